@@ -4,6 +4,7 @@ pub mod identity;
 pub mod lockstep;
 pub mod orl;
 pub mod reference;
+pub mod regharness;
 pub mod script;
 pub mod walk;
 
@@ -181,7 +182,24 @@ fn orl_report(out: orl::OrlOutcome) -> RunReport {
     RunReport { violations: out.violations, counters: out.counters, signature: out.signature, nontrivial: out.steps >= 3, sim_time_ns: 0, steps: out.steps, case_hashes: vec![out.signature] }
 }
 
+fn reg_report(out: regharness::RegOutcome) -> RunReport {
+    RunReport { violations: out.violations, counters: out.counters, signature: out.signature, nontrivial: out.steps >= 3, sim_time_ns: 0, steps: out.steps, case_hashes: vec![out.signature] }
+}
+
 pub fn run_case(focus: &str, seed: u64) -> (RunReport, Value) {
+    if focus == "C18" {
+        let mut sc = regharness::gen_reg(seed);
+        let out = regharness::run_reg(&sc);
+        if !out.violations.is_empty() {
+            sc.picks = Some(out.taken.clone());
+        }
+        let mut rep = reg_report(out);
+        rep.counters.inc(&format!("harness_{}_{}", sc.proto, sc.net));
+        for m in &sc.modes {
+            rep.counters.inc(&format!("server_mode_{}", m));
+        }
+        return (rep, serde_json::to_value(&sc).unwrap());
+    }
     if focus == "C16" {
         let mut sc = orl::gen_orl(seed);
         let out = orl::run_orl(&sc);
@@ -214,6 +232,10 @@ pub fn run_case(focus: &str, seed: u64) -> (RunReport, Value) {
 }
 
 pub fn replay(focus: &str, scenario: &Value) -> Result<RunReport, String> {
+    if focus == "C18" {
+        let sc: regharness::RegScenario = serde_json::from_value(scenario.clone()).map_err(|e| e.to_string())?;
+        return Ok(reg_report(regharness::run_reg(&sc)));
+    }
     if focus == "C16" {
         let sc: orl::OrlScenario = serde_json::from_value(scenario.clone()).map_err(|e| e.to_string())?;
         return Ok(orl_report(orl::run_orl(&sc)));
@@ -229,6 +251,13 @@ pub fn replay(focus: &str, scenario: &Value) -> Result<RunReport, String> {
 }
 
 pub fn summary(scenario: &Value) -> Value {
+    if scenario.get("proto").is_some() {
+        let mut s = scenario.clone();
+        if let Some(o) = s.as_object_mut() {
+            o.remove("picks");
+        }
+        return s;
+    }
     if scenario.get("users").is_some() {
         return serde_json::json!({"users": scenario["users"], "network": scenario["net"], "lossy": scenario["lossy"], "steps": scenario["steps"], "quiesce_steps": scenario["quiesce_steps"], "weights_deliver_drop_timeout": scenario["weights"]});
     }
@@ -249,6 +278,37 @@ pub fn summary(scenario: &Value) -> Value {
 }
 
 pub fn shrink_candidates(scenario: &Value) -> Vec<Value> {
+    if scenario.get("proto").is_some() {
+        let Ok(sc) = serde_json::from_value::<regharness::RegScenario>(scenario.clone()) else { return vec![] };
+        let mut out = Vec::new();
+        if let Some(p) = &sc.picks {
+            for i in (0..p.len()).rev() {
+                let mut s = sc.clone();
+                let mut q = p.clone();
+                q.remove(i);
+                s.picks = Some(q);
+                out.push(s);
+            }
+        }
+        if sc.clients.len() > 1 {
+            let mut s = sc.clone();
+            s.clients.pop();
+            out.push(s);
+        }
+        for i in 0..sc.clients.len() {
+            if sc.clients[i] > 0 {
+                let mut s = sc.clone();
+                s.clients[i] -= 1;
+                out.push(s);
+            }
+        }
+        if sc.max_crashes > 0 {
+            let mut s = sc.clone();
+            s.max_crashes = 0;
+            out.push(s);
+        }
+        return out.into_iter().map(|s| serde_json::to_value(&s).unwrap()).collect();
+    }
     if scenario.get("users").is_some() {
         let Ok(sc) = serde_json::from_value::<orl::OrlScenario>(scenario.clone()) else { return vec![] };
         let mut out = Vec::new();
